@@ -116,6 +116,40 @@ fn h_probes(case: &HCase, o: &HObs, stream: &[u8]) -> Vec<(&'static str, u64)> {
     ]
 }
 
+/// Hash a reply stream in a form that does not depend on std's per-process hash seed: frames are
+/// parsed and re-serialised with sorted keys, and the `interfaces` list of a GetInfo reply (whose
+/// order beyond the first element follows `HashMap` iteration order inside VarlinkService) is sorted.
+pub fn canon_wire_hash(f: &mut Fnv, wire: &[u8]) {
+    let (frames, rest) = split_nul(wire);
+    for fr in frames {
+        match serde_json::from_slice::<Value>(fr) {
+            Ok(mut v) => {
+                if let Some(a) = v
+                    .get_mut("parameters")
+                    .and_then(|p| p.get_mut("interfaces"))
+                    .and_then(|i| i.as_array_mut())
+                {
+                    a.sort_by(|x, y| x.to_string().cmp(&y.to_string()));
+                }
+                f.str(&v.to_string());
+            }
+            Err(_) => {
+                f.bytes(fr);
+                f.bytes(&[0]);
+            }
+        }
+    }
+    // an unterminated trailing frame (write error mid-reply): drop the order-dependent list tail
+    let key = b"\"interfaces\":[";
+    match rest.windows(key.len()).position(|w| w == key) {
+        Some(p) => {
+            f.bytes(&rest[..p]);
+            f.u64(rest.len() as u64);
+        }
+        None => f.bytes(rest),
+    }
+}
+
 pub fn eval_h(case: &HCase) -> RunResult {
     let o = run_h(case);
     finish_h(case, &o, Vec::new())
@@ -129,7 +163,7 @@ fn finish_h(case: &HCase, o: &HObs, mut extra: Vec<Violation>) -> RunResult {
     let mut violations = verdict.violations;
     violations.append(&mut extra);
     let mut f = Fnv::new();
-    f.bytes(&o.wire);
+    canon_wire_hash(&mut f, &o.wire);
     f.str(&format!("{:?}", o.end));
     f.bytes(&o.upgraded_record);
     let nmsgs = model.msgs.len();
